@@ -2,7 +2,7 @@
 (* Property operators of the Server family (C18, C17, C20) over the history   *)
 (* an application and its clients can observe:                                *)
 (*  serving, arrive(s,l), hs(s,res), cbEst(s), dispatch(s,...), finished(s),  *)
-(*  cbFin(s), closecall, closeret, lasret(res), panic(res), end(res)          *)
+(*  cbFin(s), gone(s), closecall, closeret, lasret(res), panic(res), end(res) *)
 EXTENDS Integers, Sequences, FiniteSets
 
 S0 == [k |-> "", s |-> "", l |-> "", res |-> "", a |-> "", b |-> "", n |-> 0]
@@ -33,9 +33,9 @@ C18_CallbacksExact(o) ==
     /\ ((HasEnd(o) /\ ~Crashed(o) /\ Established(o, s)) =>
           Cardinality(At(o, "cbEst", s)) = 1 /\ Cardinality(At(o, "cbFin", s)) = 1)
 
-(* every established session is finished so that its client observes it *)
+(* every established session is finished so that its client observes it (unless it has gone away) *)
 C18_AllFinished(o) ==
-  (HasEnd(o) /\ ~Crashed(o)) => \A s \in Sessions(o) : Established(o, s) => At(o, "finished", s) # {}
+  (HasEnd(o) /\ ~Crashed(o)) => \A s \in Sessions(o) : Established(o, s) => (At(o, "finished", s) # {} \/ At(o, "gone", s) # {})
 
 (* nothing that serves is left behind *)
 C18_NoLeak(o) == \A i \in Idx(o) : (o[i].k = "end" /\ o[i].res # "crash") => o[i].n = 0
